@@ -399,7 +399,7 @@ class Env:
                 ctx.oblige(f"{E.current_top}/middleware.process_request/requires/C04: consulted with the request URL", url.z == want_url)
             t = ctx.heap[p.oid]["g_T"]
             want_ip = z3.If(z3.Bool("has_peername"), z3.String("peer.ip"), SV("unknown"))
-            ctx.oblige(f"{E.current_top}/middleware.process_request/requires/C04: consulted with the real peer address", ip.z == want_ip)
+            ctx.oblige(f"{E.current_top}/middleware.process_request/requires/C04,C09: consulted with the real peer address (the transport's peername, unaltered)", ip.z == want_ip)
             fp = ctx.force(fp)
             readable = z3.And(z3.Bool("has_peercert"), z3.Bool("peercert_readable"))
             if req is not None and req.cls == TREQ and ctx.ghost.get("titan_from_prestate") and ctx.ghost.get("prestate_titan_used"):
